@@ -240,9 +240,31 @@ def main():
         for t in ex.map(run_task, tasks):
             done.append(t)
 
+    # ---- a task that failed without a verdict (harness Fatalf, worker death) is run once more: the
+    # simulated nodes have wall-clock-driven parts (pool tickers, goroutine scheduling), so a rare
+    # schedule can trip a harness assertion; only a failure that repeats stays inconclusive
+    retried = []
+    for i, t in enumerate(done):
+        if classify(t) == "inconclusive" and not t["timed_out"] and not replay:
+            first_out = t["out"]
+            try:
+                fd = os.path.join(BUILD, "failed")
+                os.makedirs(fd, exist_ok=True)
+                with open(os.path.join(fd, "%s-%s-seed%d-%s-s%d-first-attempt.log" % (pid, tier, seed, t["name"], t["shard"])), "w") as f:
+                    f.write(first_out or "")
+            except Exception:
+                pass
+            log("---- task %s shard %d failed without a verdict (rc=%s); running it once more" % (t["name"], t["shard"], t["rc"]))
+            t2 = run_task(dict(t))
+            t2["note"] = "second attempt after a failure without verdict"
+            done[i] = t2
+            retried.append("%s/%d" % (t["name"], t["shard"]))
+
     # ---- aggregate -------------------------------------------------------------------------
     parts, known_hits, excluded, violations, notes = {}, {}, {}, [], []
     status = "ok"
+    if retried:
+        notes.append("tasks re-run once after a failure without verdict: " + ", ".join(retried))
     for t in done:
         c = classify(t)
         t["class"] = c
